@@ -745,6 +745,62 @@ fn received_props(rec: &[(i64, bool)]) -> Vec<(&'static str, String)> {
     out
 }
 
+/// String table for labels / results of the expectation table.
+#[derive(Default)]
+struct Intern {
+    v: Vec<String>,
+    m: HashMap<String, u16>,
+}
+impl Intern {
+    fn id(&mut self, s: &str) -> u16 {
+        if let Some(i) = self.m.get(s) {
+            return *i;
+        }
+        let i = self.v.len() as u16;
+        self.v.push(s.to_string());
+        self.m.insert(s.to_string(), i);
+        i
+    }
+}
+
+/// One (state, thread-step) edge: who steps and what the real objects must show afterwards (24 bytes).
+#[derive(Clone, Default)]
+struct EdgeX {
+    p: i64,
+    lbl: u16,
+    ret: u16,
+    head: u32,
+    tail: u32,
+    active: u16,
+    flags: u8, // closed, ended, poplocked, plocked, woken
+    win: i8,
+    live: i32,
+    got: i32,
+}
+impl EdgeX {
+    fn from_json(p: i64, x: &Value, strs: &mut Intern) -> Self {
+        let b = |k: &str, bit: u8| if x[k].as_bool().unwrap_or(false) { 1u8 << bit } else { 0 };
+        EdgeX {
+            p,
+            lbl: strs.id(x["lbl"].as_str().unwrap_or("")),
+            ret: strs.id(x["ret"].as_str().unwrap_or("")),
+            head: x["head"].as_u64().unwrap_or(0) as u32,
+            tail: x["tail"].as_u64().unwrap_or(0) as u32,
+            active: x["active"].as_u64().unwrap_or(0) as u16,
+            flags: b("closed", 0) | b("ended", 1) | b("poplocked", 2) | b("plocked", 3) | b("woken", 4),
+            win: x["win"].as_i64().unwrap_or(-1) as i8,
+            live: x["live"].as_i64().unwrap_or(0) as i32,
+            got: x["got"].as_i64().unwrap_or(0) as i32,
+        }
+    }
+    fn to_json(&self, strs: &Intern) -> Value {
+        let f = |bit: u8| self.flags & (1 << bit) != 0;
+        json!({"lbl": strs.v[self.lbl as usize], "head": self.head, "tail": self.tail, "closed": f(0), "ended": f(1),
+               "active": self.active, "poplocked": f(2), "plocked": f(3), "woken": f(4), "live": self.live,
+               "ret": strs.v[self.ret as usize], "got": self.got, "win": self.win})
+    }
+}
+
 const FIELDS: [(&str, &str); 13] = [
     ("lbl", "StepConformance"),
     ("ret", "CallResult"),
@@ -781,16 +837,33 @@ fn main() {
     install_scheduler();
     rustrtc::verif::set_enabled(true);
 
-    let plan = read_ndjson(&args[1]);
+    // The plan is streamed line by line; schedules of other shards are skipped without being parsed and the
+    // expectation table is kept in a compact form (a plan of a large configuration is several hundred MB of JSON).
+    let plan_file = std::fs::File::open(&args[1]).unwrap_or_else(|e| panic!("open {}: {e}", args[1]));
+    let plan = std::io::BufRead::lines(std::io::BufReader::with_capacity(1 << 20, plan_file));
     let mut out = NdjsonOut::create_local(&args[2]);
     let progress_path = format!("{}.progress", args[2]);
     let mut cfg: Option<Cfg> = None;
-    let mut edges: Vec<(i64, Value)> = Vec::new();
+    let mut edges: Vec<EdgeX> = Vec::new();
+    let mut strs = Intern::default();
     let (mut npaths, mut nsteps, mut ndiv, mut nwit) = (0u64, 0u64, 0u64, 0u64);
     let mut labels_seen: std::collections::BTreeSet<String> = Default::default();
     let mut nonce = 0u64;
 
-    for line in &plan {
+    for text in plan {
+        let text = text.expect("read plan");
+        const PATH_PREFIX: &str = "{\"type\":\"path\",\"id\":";
+        if let Some(rest) = text.strip_prefix(PATH_PREFIX) {
+            let id: u64 = rest[..rest.find(',').expect("path id")].parse().expect("path id");
+            if id as usize % nshard != shard || ndiv >= 50 {
+                continue;
+            }
+        }
+        if text.trim().is_empty() {
+            continue;
+        }
+        let line_v: Value = serde_json::from_str(&text).unwrap_or_else(|e| panic!("{}: bad json: {e}", args[1]));
+        let line = &line_v;
         match line["type"].as_str().unwrap_or("") {
             "cfg" => {
                 cfg = Some(parse_cfg(line));
@@ -799,9 +872,9 @@ fn main() {
             "edge" => {
                 let i = line["i"].as_u64().unwrap() as usize;
                 if edges.len() <= i {
-                    edges.resize(i + 1, (0, Value::Null));
+                    edges.resize(i + 1, EdgeX::default());
                 }
-                edges[i] = (line["p"].as_i64().unwrap(), line["x"].clone());
+                edges[i] = EdgeX::from_json(line["p"].as_i64().unwrap(), &line["x"], &mut strs);
             }
             "path" => {
                 let id = line["id"].as_u64().unwrap();
@@ -827,7 +900,8 @@ fn main() {
                 let mut failed = false;
                 let mut trace: Vec<Value> = Vec::new();
                 for (si, ei) in steps.iter().enumerate() {
-                    let (p, x) = &edges[*ei];
+                    let p = &edges[*ei].p;
+                    let x = &edges[*ei].to_json(&strs);
                     if *p == 0 {
                         break; // teardown edge: handled below
                     }
